@@ -41,6 +41,7 @@ def instances(tier):
         out.append({"kind": "unit", "gen": g, "periods": 2, "silent_from": 1})
         out.append({"kind": "unit", "gen": g, "periods": 2 if tier == "quick" else 3, "silent_from": 9})
         out.append({"kind": "matcher", "gen": g})
+        out.append({"kind": "outage", "gen": g})
     return out
 
 
@@ -89,6 +90,8 @@ def sorted_sym(xs):
 def run(ctx, p):
     if p["kind"] == "matcher":
         return _matcher(ctx, p)
+    if p["kind"] == "outage":
+        return _outage(ctx, p)
     g = Gen(p["gen"])
     api_level = p["kind"] == "api"
     n = p["periods"]
@@ -237,4 +240,49 @@ def _matcher(ctx, p):
         closes = [t for (ev, idx, t) in rig.net.events if ev == "close"]
         ctx.check(len(closes) >= 1 and closes[0] == 330, "matcher", detail={"closes": [str(c) for c in closes]})
         for lab in ("requests_every_interval", "reset_exactly_at_deadline", "no_reset_when_answered"):
+            ctx.reach(lab)
+
+
+def _outage(ctx, p):
+    """An outage (not caused by the heartbeat) spans a heartbeat deadline; after the link is back one heartbeat is
+    answered, then the console falls silent: the reset must come exactly 330 s after that last response."""
+    g = Gen(p["gen"])
+    inst = Installation.simple(g.n, n_acs=1, zones_per_ac=1)
+    t_drop = 100.0         # the outage window is fixed (every 2 s retry inside a symbolic window would fork); it spans the 330 s deadline
+    t_back = 400.5
+    d = ctx.real("d", 0, 20)
+    with ApiRig(ctx, g, inst) as rig:
+        con = rig.console
+        state = {"hb": 0, "answered_at": None}
+        rig.net.on_connect = lambda net, n: ("accept", 0) if (n == 0 or bool(rig.loop.time() >= t_back)) else ("refuse",)
+        rig.start()
+        rig.run(1.0)
+        ctx.check(rig.init_result is True, "reset_exactly_at_deadline", detail="handshake failed")
+        orig = con._answer
+
+        def answer(conn, kind, fr):
+            if kind == "version":
+                # only the heartbeat sent at 600 s is answered (after d); every other one is ignored
+                if bool(rig.loop.time() == 600) and state["answered_at"] is None:
+                    def late():
+                        c = rig.net.current()
+                        if c is not None and not c.peer_closed:
+                            state["answered_at"] = rig.loop.time()
+                            c.send(bytes(con.version_frame(fr["pid"])))
+                    rig.loop.call_later(d, late)
+                return
+            orig(conn, kind, fr)
+
+        con._answer = answer
+        rig.loop.vt_call_at(t_drop, lambda: rig.net.current().reset() if rig.net.current() else None)
+        rig.run(1000.0)
+        closes = [t for (ev, idx, t) in rig.net.events if ev == "close"]
+        # closes: the outage itself (at t_drop), then exactly one heartbeat reset at 600 + d + 330
+        exp = 600 + d + 330
+        hb_resets = [t for t in closes if bool(t > t_back)]
+        ctx.observe("resets_after_outage", len(hb_resets))
+        ctx.check(state["answered_at"] is not None, "reset_exactly_at_deadline", detail="the heartbeat at 600 s was never sent/answered")
+        ctx.check(len(hb_resets) == 1 and bool(hb_resets[0] == exp), "reset_exactly_at_deadline",
+                  detail={"resets": [str(t) for t in hb_resets], "expected": str(exp)})
+        for lab in ("requests_every_interval", "no_reset_when_answered", "matcher"):
             ctx.reach(lab)
